@@ -5,6 +5,7 @@ import (
 	"encoding/base64"
 
 	p2pcrypto "github.com/libp2p/go-libp2p/core/crypto"
+	"golang.org/x/crypto/curve25519"
 	"golang.org/x/crypto/nacl/box"
 
 	"berty.tech/weshnet/v2/pkg/cryptoutil"
@@ -91,6 +92,30 @@ func (hc *handshakeContext) receivePeerEphemeralPubKey() error {
 	hc.peerEphemeral, err = cryptoutil.KeySliceToArray(hello.EphemeralPubKey)
 	if err != nil {
 		return errcode.ErrCode_ErrSerialization.Wrap(err)
+	}
+
+	if err := checkEphemeralPubKey(hc.peerEphemeral); err != nil {
+		return errcode.ErrCode_ErrInvalidInput.Wrap(err)
+	}
+
+	return nil
+}
+
+// checkEphemeralPubKey refuses small-order points. With such a point the
+// ephemeral agreement (and the agreement with the responder's account key) is
+// a constant that does not depend on any secret, so a proof signed over it in
+// one session can be replayed in another one.
+func checkEphemeralPubKey(key *[cryptoutil.KeySize]byte) error {
+	var scalar [curve25519.ScalarSize]byte
+
+	if _, err := crand.Read(scalar[:]); err != nil {
+		return errcode.ErrCode_ErrCryptoRandomGeneration.Wrap(err)
+	}
+
+	// X25519 fails if the result is the all-zero value, which is the case
+	// for every small-order input whatever the scalar
+	if _, err := curve25519.X25519(scalar[:], key[:]); err != nil {
+		return err
 	}
 
 	return nil
